@@ -106,6 +106,15 @@ func main() {
 		time.Sleep(time.Second)
 	case "empty":
 		finish()
+	case "two-documents":
+		// a complete JSON array followed by another one: not a JSON document as a whole
+		os.Stdout.WriteString(issues(n))
+		os.Stdout.WriteString(issues(1))
+		finish()
+	case "json-then-garbage":
+		os.Stdout.WriteString(issues(0))
+		os.Stdout.WriteString(tool + ": internal error: something went wrong\n")
+		finish()
 	case "garbage":
 		os.Stdout.WriteString("this is }{ not JSON\nnor pyflakes output\n")
 		finish()
